@@ -82,7 +82,9 @@ class Encoder(object):
 
     def enc_Expression(self, n): return self.enc(n.body)
     def enc_Expr(self, n): return self.enc(n.value)
-    def enc_Name(self, n): return self.name(n.id)
+    def enc_Name(self, n):
+        if n.id == 'Ellipsis': return const_code(Ellipsis)      # the builtin name (pony renders `...` as `Ellipsis`); shadowing it is outside the claim
+        return self.name(n.id)
 
     def enc_Constant(self, n):
         if n.value is None: return NONE
@@ -156,6 +158,9 @@ class Encoder(object):
         return UF('attr_' + n.attr, 1)(self.enc(n.value))
 
     def enc_Call(self, n):
+        if isinstance(n.func, ast.Name) and n.func.id == 'frozenset' and len(n.args) == 1 and not n.keywords and isinstance(n.args[0], ast.Set) \
+                and all(isinstance(e, ast.Constant) for e in n.args[0].elts):
+            return self.enc_Constant(ast.Constant(frozenset(e.value for e in n.args[0].elts)))      # how a folded set constant is rendered
         args = [self.enc(n.func)]
         shape = []
         for a in n.args:
